@@ -5,7 +5,7 @@
 S="$(realpath "$1")"; BIN="${2:-/verif/bin/b6lint}"
 export GOFLAGS=-mod=mod GOPROXY=off GOSUMDB=off GOTOOLCHAIN=local
 T=/verif/.cache/try-$$; rm -rf $T; mkdir -p $T/src/diagonal.works
-rsync -a --include='*/' --include='*.go' --include='go.mod' --include='go.sum' --exclude='*' --prune-empty-dirs /repo/src/diagonal.works/b6 $T/src/diagonal.works/; find $T -name '*_test.go' -delete
+rsync -a --include='*/' --include='*.go' --include='*.y' --include='go.mod' --include='go.sum' --exclude='*' --prune-empty-dirs /repo/src/diagonal.works/b6 $T/src/diagonal.works/; find $T -name '*_test.go' -delete
 (cd $T && patch -p1 -s -f --no-backup-if-mismatch < "$S/patch.diff") || { echo "patch does not apply"; rm -rf $T; exit 1; }
 [ -f /verif/.cache/base-brief.txt ] && [ /verif/.cache/base-brief.txt -nt $BIN ] || $BIN run -brief | grep -E "^(violation|undecided|ERROR)" | awk '{print $1, $2}' | sort > /verif/.cache/base-brief.txt
 $BIN run -root $T/src/diagonal.works/b6 -brief > $T/out.txt 2>&1
